@@ -53,6 +53,30 @@ Definition get_if_one_range (c : cls) : option (Z * Z) :=
 
 Definition is_ascii_letter (c : Z) : bool := ((65 <=? c) && (c <=? 90)) || ((97 <=? c) && (c <=? 122)).
 
+(* ---------- tree predicate used as a hypothesis of the C04 theorems of this file ---------- *)
+(* every literal rune lies in 0..MaxRune (a pattern is a Go string or an escape of at most 0x10FFFF) and no
+   Multi node is empty (tree.go turns an empty string into Empty); nothing is required inside lookarounds and
+   inside the condition of an expression conditional.  Recomputed by leg c04-analysis2 on every exported tree. *)
+Definition rune_ok (c : Z) : bool := (0 <=? c) && (c <=? MAXR).
+
+Fixpoint lits_ok (t : node) : bool :=
+  match t with
+  | NChar CSet _ _ => true
+  | NChar _ _ c => rune_ok c
+  | NCharLoop CSet _ _ _ _ _ => true
+  | NCharLoop _ _ _ c _ _ => rune_ok c
+  | NMulti _ s => match s with [] => false | _ => forallb rune_ok s end
+  | NConcat _ l => forallb lits_ok l
+  | NAlternate _ l => forallb lits_ok l
+  | NLoop _ _ _ _ r => lits_ok r
+  | NCapture _ _ _ r => lits_ok r
+  | NGroup r => lits_ok r
+  | NAtomic r => lits_ok r
+  | NBackRefCond _ _ yes no => lits_ok yes && match no with Some n => lits_ok n | None => true end
+  | NExprCond _ _ yes no => lits_ok yes && match no with Some n => lits_ok n | None => true end
+  | _ => true
+  end.
+
 Section Analysis2.
 Variable cat_in : Z -> Z -> bool.
 Variable part_cc : Z -> bool.          (* participatesInCaseConversion, charclass.go:1358 *)
